@@ -160,7 +160,7 @@ def check_mi(ctx, k, log=32):
 
 
 SHAPES = ["k_shape_copyinit", "k_shape_directinit", "k_shape_twoarg", "k_shape_assign", "k_shape_vol_assign", "k_shape_vol_stdarray",
-          "k_shape_vol_carray", "k_shape_vol_fnptr"]
+          "k_shape_vol_carray", "k_shape_vol_fnptr", "k_shape_constptr_direct", "k_shape_constptr_copy", "k_shape_constptr_brace"]
 
 
 def check_shape(ctx, k, pb):
@@ -200,7 +200,7 @@ def check_shape_ctl(ctx, k):
     else:
         paths = ctx.run(k, [base, p])
     for q in paths:
-        if q.status == "ret" and k == "k_ctl_init":
+        if q.status == "ret" and k in ("k_ctl_init", "k_ctl_constptr"):
             ctx.require(q, q.ret == p, "control: tainted-from-tainted initialisation and assignment keep the pointer")
     ctx.only(paths, "ret")
     ctx.expect(paths, ret=1)
@@ -242,7 +242,7 @@ def jobs(tier, seed):
     for sbx, pb in (("B32", 4), ("B64", 8)):
         shsrc = '#include "verif_sandbox.hpp"\nusing S = %s;\n#include "C02_shapes.inc"\n' % sbx
         out.append(Job("C02_%s_shapes" % sbx, shsrc, [dict(name="%s rejected shape %s" % (sbx, k), fn=check_shape, kw=dict(k=k, pb=pb), optional=True) for k in SHAPES] +
-                       [dict(name="%s control %s" % (sbx, k), fn=check_shape_ctl, kw=dict(k=k)) for k in ("k_ctl_init", "k_ctl_vol")], native=False))
+                       [dict(name="%s control %s" % (sbx, k), fn=check_shape_ctl, kw=dict(k=k)) for k in ("k_ctl_init", "k_ctl_vol", "k_ctl_constptr")], native=False))
     # a third way in: copy_memory_or_grant_access on a backend that can refuse a grant and then hands back the source pointer
     from specs import C10
     gsrc = '#include "verif_sandbox.hpp"\nusing S = B32G;\n#include "C10_kernels.inc"\n'
